@@ -699,6 +699,7 @@ class Interp(object):
         self.apply_decorators = set()    # qualified names of repository decorators to interpret
         self._decorated = {}
         self._in_value_eq = 0
+        self._class_attr_vals = {}
         _CUR_INTERP[0] = self
         self._callkeys = []              # (function, argument identities) of the interpreted frames
         self._lru = {}                   # results of functions under functools.lru_cache / cache
@@ -1385,6 +1386,11 @@ class Interp(object):
                     # other decorators: ask the domain, default = see through
                     return fn.bind(inst) if inst is not None else fn
                 if kind in ("expr", "unpack"):
+                    # a class attribute is evaluated once, when the class is created: every instance (and every later
+                    # access) sees the same object - a class-level dictionary is shared by all instances
+                    ck = (q, name)
+                    if ck in self._class_attr_vals:
+                        return self._class_attr_vals[ck]
                     # class-body expressions see the class-level names bound before them
                     expr = v if kind == "expr" else v[0]
                     env = Env()
@@ -1392,7 +1398,9 @@ class Interp(object):
                         if isinstance(nn, ast.Name) and nn.id in ci.attrs and nn.id != name and nn.id not in env.vars:
                             env.vars[nn.id] = self.class_attr(q, nn.id, None, node)
                     val = self.eval(expr, env, _FuncCtx(ci.module, q))
-                    return val if kind == "expr" else self.iterate(val)[v[1]]
+                    val = val if kind == "expr" else self.iterate(val)[v[1]]
+                    self._class_attr_vals[ck] = val
+                    return val
         if inst is not None and inst.tag == "exc" and name in ("message", "args"):
             return inst.attrs.get("args", ())
         if name == "__init__" and self._is_exception_class(qual):
